@@ -159,10 +159,11 @@ class Transformer(ast.NodeTransformer):
         return ast.copy_location(ast.Compare(left, [op], [right]), node)
 
     def visit_Compare(self, node):
+        simple = all(_simple(c) for c in node.comparators[:-1])      # judged on the original operands (subscripts are fine)
         self.generic_visit(node)
         if len(node.ops) == 1:
             return self._cmp1(node.left, node.ops[0], node.comparators[0], node)
-        if not all(_simple(c) for c in node.comparators[:-1]):
+        if not simple:
             return node
         parts = []
         left = node.left
